@@ -16,6 +16,7 @@ import (
 	"go.flow.arcalot.io/deployer"
 	"go.flow.arcalot.io/deployer/registry"
 	"go.flow.arcalot.io/engine/internal/step"
+	"go.flow.arcalot.io/engine/internal/verifhook"
 	"go.flow.arcalot.io/pluginsdk/atp"
 	"go.flow.arcalot.io/pluginsdk/schema"
 )
@@ -312,6 +313,7 @@ func (p *pluginProvider) LoadSchema(inputs map[string]any, _ map[string][]byte) 
 		return nil, fmt.Errorf("missing local deployer for requested type %s", requestedDeploymentType)
 	}
 	pluginConnector, err := applicableLocalDeployer.Deploy(ctx, pluginSource)
+	verifhook.Emit("ProbeDeploy", "src", pluginSource, "err", err)
 	if err != nil {
 		cancel()
 		return nil, fmt.Errorf("failed to deploy plugin of deployment type '%s' with source '%s' (%w)",
@@ -727,6 +729,7 @@ func (r *runnableStep) Start(input map[string]any, runID string, stageChangeHand
 	}
 
 	s.wg.Add(1) // Wait for the run to finish before closing.
+	verifhook.Emit("SStart", "obj", s, "step", runID, "kind", "plugin", "handler", s.hasCancellationHandler())
 	go s.run()
 
 	return s, nil
@@ -782,6 +785,7 @@ func (r *runningStep) State() step.RunningStepState {
 	r.lock.Lock()
 	defer r.lock.Unlock()
 	tempState := r.state
+	verifhook.Emit("SState", "obj", r, "state", string(tempState), "stage", string(r.currentStage))
 	return tempState
 }
 
@@ -825,6 +829,7 @@ func (r *runningStep) provideDeployInput(input map[string]any) error {
 	// input provided on this call overwrites the deployer configuration
 	// set at this plugin provider's instantiation
 	if r.deployInputAvailable {
+		verifhook.Emit("SProv", "obj", r, "stage", "deploy", "ok", false)
 		return fmt.Errorf("deployment information provided more than once")
 	}
 	var unserializedDeployerConfig any
@@ -847,6 +852,7 @@ func (r *runningStep) provideDeployInput(input map[string]any) error {
 	// Feed the deploy step its input.
 	select {
 	case r.deployInput <- unserializedDeployerConfig:
+		verifhook.Emit("SProv", "obj", r, "stage", "deploy", "ok", true, "state", string(r.state))
 	default:
 		return fmt.Errorf("unable to provide input to deploy stage for step %s/%s", r.runID, r.pluginStepID)
 	}
@@ -856,6 +862,7 @@ func (r *runningStep) provideDeployInput(input map[string]any) error {
 func (r *runningStep) provideEnablingInput(input map[string]any) error {
 	// Note: The calling function must have the step mutex locked
 	if r.enabledInputAvailable {
+		verifhook.Emit("SProv", "obj", r, "stage", "enabling", "ok", false)
 		return fmt.Errorf("enabled input provided more than once")
 	}
 	// Check to make sure it's enabled.
@@ -863,12 +870,14 @@ func (r *runningStep) provideEnablingInput(input map[string]any) error {
 	enabled := input["enabled"] == nil || input["enabled"] == true
 	r.enabledInputAvailable = true
 	r.enabledInput <- enabled
+	verifhook.Emit("SProv", "obj", r, "stage", "enabling", "ok", true, "val", enabled, "state", string(r.state))
 	return nil
 }
 
 func (r *runningStep) provideStartingInput(input map[string]any) error {
 	// Note: The calling function must have the step mutex locked
 	if r.runInputAvailable {
+		verifhook.Emit("SProv", "obj", r, "stage", "starting", "ok", false)
 		return fmt.Errorf("starting input provided more than once")
 	}
 	// Ensure input is given
@@ -904,6 +913,7 @@ func (r *runningStep) provideStartingInput(input map[string]any) error {
 		stepInputData:       input["input"],
 		forceCloseTimeoutMS: timeout,
 	}:
+		verifhook.Emit("SProv", "obj", r, "stage", "starting", "ok", true, "state", string(r.state), "data", input["input"])
 	default:
 		return fmt.Errorf("unable to provide input to run stage for step %s/%s", r.runID, r.pluginStepID)
 	}
@@ -918,6 +928,7 @@ func (r *runningStep) provideCancelledInput(input map[string]any) {
 	}
 	if input["stop_if"] != false {
 		r.cancelled = true
+		verifhook.Emit("SProv", "obj", r, "stage", "cancelled", "ok", true, "val", true, "curstage", string(r.currentStage))
 		r.cancelStep()
 	}
 }
@@ -947,13 +958,16 @@ func (r *runningStep) cancelStep() {
 			r.logger.Errorf("validation failed for cancel signal for step %s/%s: %s", r.runID, r.pluginStepID, err)
 		} else if r.signalToStep == nil {
 			r.logger.Debugf("signal send channel closed; the step %s/%s likely finished", r.runID, r.pluginStepID)
+			verifhook.Emit("SSig", "obj", r, "op", "nil")
 		} else {
 			// Validated. Now call the signal.
 			r.signalToStep <- schema.Input{RunID: r.runID, ID: cancelSignal.ID(), InputData: map[any]any{}}
+			verifhook.Emit("SSig", "obj", r, "op", "enqueue")
 		}
 	}
 	// Now cancel the context to stop the non-running parts of the step
 	r.cancel()
+	verifhook.Emit("SCtx", "obj", r, "why", "cancelStep", "curstage", string(r.currentStage))
 }
 
 // ForceClose closes the step without waiting for a graceful shutdown of the ATP client.
@@ -961,6 +975,8 @@ func (r *runningStep) cancelStep() {
 // will stop execution once the deployer closes it.
 func (r *runningStep) ForceClose() error {
 	closedAlready := r.closed.Swap(true)
+	verifhook.Emit("SClose", "obj", r, "kind", "force", "was", closedAlready)
+	defer verifhook.Emit("SCloseRet", "obj", r, "kind", "force")
 	if closedAlready {
 		r.wg.Wait()
 		return nil
@@ -979,6 +995,7 @@ func (r *runningStep) ForceClose() error {
 // completion is required to end the wait.
 func (r *runningStep) forceCloseInternal() error {
 	closedAlready := r.closed.Swap(true)
+	verifhook.Emit("SClose", "obj", r, "kind", "internal", "was", closedAlready)
 	if closedAlready {
 		return nil
 	}
@@ -987,12 +1004,15 @@ func (r *runningStep) forceCloseInternal() error {
 
 func (r *runningStep) forceClose() error {
 	r.cancel()
+	verifhook.Emit("SCtx", "obj", r, "why", "forceClose")
 	err := r.closeComponents(false)
 	return err
 }
 
 func (r *runningStep) Close() error {
 	closedAlready := r.closed.Swap(true)
+	verifhook.Emit("SClose", "obj", r, "kind", "close", "was", closedAlready)
+	defer verifhook.Emit("SCloseRet", "obj", r, "kind", "close")
 	if closedAlready {
 		r.wg.Wait()
 		return nil
@@ -1020,6 +1040,7 @@ func (r *runningStep) closeComponents(closeATP bool) error {
 	if r.container != nil {
 		containerErr = r.container.Close()
 	}
+	verifhook.Emit("SConn", "obj", r, "op", "closeComponents", "had", r.container != nil)
 	r.container = nil
 	r.lock.Unlock()
 	if containerErr != nil {
@@ -1034,6 +1055,7 @@ func (r *runningStep) closeComponents(closeATP bool) error {
 // Note: Caller must add 1 to the waitgroup before calling.
 func (r *runningStep) run() {
 	defer func() {
+		verifhook.Emit("SExit", "obj", r)
 		r.cancel()  // Close before WaitGroup done
 		r.wg.Done() // Done. Close may now exit.
 	}()
@@ -1043,6 +1065,7 @@ func (r *runningStep) run() {
 	}
 	defer func() {
 		err := pluginConnection.Close()
+		verifhook.Emit("SConn", "obj", r, "op", "deferClose", "err", err)
 		if err != nil {
 			r.logger.Errorf("failed to close deployed container for step %s/%s", r.runID, r.pluginStepID)
 		}
@@ -1053,6 +1076,7 @@ func (r *runningStep) run() {
 // Deploys the plugin, and handles failure cases.
 func (r *runningStep) startPlugin() deployer.Plugin {
 	pluginConnection, contextDoneEarly, err := r.deployStage()
+	verifhook.Emit("SDeployRet", "obj", r, "ctxdone", contextDoneEarly, "err", err)
 	if contextDoneEarly {
 		if err != nil {
 			r.logger.Debugf("error due to step early closure: %s", err.Error())
@@ -1066,6 +1090,7 @@ func (r *runningStep) startPlugin() deployer.Plugin {
 	r.lock.Lock()
 	select {
 	case <-r.ctx.Done():
+		verifhook.Emit("SConn", "obj", r, "op", "closeAfterDeployCtx")
 		if err := pluginConnection.Close(); err != nil {
 			r.logger.Warningf("failed to close deployed container for step %s/%s", r.runID, r.pluginStepID)
 		}
@@ -1074,6 +1099,7 @@ func (r *runningStep) startPlugin() deployer.Plugin {
 		return nil
 	default:
 		r.container = pluginConnection
+		verifhook.Emit("SConn", "obj", r, "op", "set")
 	}
 	r.lock.Unlock()
 	r.logger.Debugf("Successfully deployed container with ID '%s' for step %s/%s", pluginConnection.ID(), r.runID, r.pluginStepID)
@@ -1117,6 +1143,7 @@ func (r *runningStep) deployStage() (deployer.Plugin, bool, error) {
 	r.lock.Lock()
 	r.state = step.RunningStepStateRunning
 	deployInputAvailable := r.deployInputAvailable
+	verifhook.Emit("SSet", "obj", r, "stage", string(r.currentStage), "state", string(r.state))
 	r.lock.Unlock()
 
 	r.stageChangeHandler.OnStageChange(
@@ -1131,21 +1158,29 @@ func (r *runningStep) deployStage() (deployer.Plugin, bool, error) {
 
 	var deployerConfig any
 	var useLocalDeployer bool
+	verifhook.Gate("plugin.deploy.beforeTry", "obj", r)
 	// First, non-blocking retrieval
 	select {
 	case deployerConfig = <-r.deployInput:
 		r.lock.Lock()
 		r.state = step.RunningStepStateRunning
+		verifhook.Emit("SSlot", "obj", r, "slot", "deploy", "op", "take")
+		verifhook.Emit("SSet", "obj", r, "stage", string(r.currentStage), "state", string(r.state))
 		r.lock.Unlock()
 	default: // Default, so it doesn't block on this receive
+		verifhook.Gate("plugin.deploy.beforeWait", "obj", r)
 		// It's waiting now.
 		r.lock.Lock()
 		r.state = step.RunningStepStateWaitingForInput
+		verifhook.Emit("SSlot", "obj", r, "slot", "deploy", "op", "miss")
+		verifhook.Emit("SSet", "obj", r, "stage", string(r.currentStage), "state", string(r.state))
 		r.lock.Unlock()
 		select {
 		case deployerConfig = <-r.deployInput:
 			r.lock.Lock()
 			r.state = step.RunningStepStateRunning
+			verifhook.Emit("SSlot", "obj", r, "slot", "deploy", "op", "take")
+			verifhook.Emit("SSet", "obj", r, "stage", string(r.currentStage), "state", string(r.state))
 			r.lock.Unlock()
 		case <-r.ctx.Done():
 			return nil, true, nil
@@ -1164,6 +1199,7 @@ func (r *runningStep) deployStage() (deployer.Plugin, bool, error) {
 			return nil, false, err
 		}
 	}
+	verifhook.Gate("plugin.deploy.beforeDeploy", "obj", r)
 	container, err := stepDeployer.Deploy(r.ctx, r.source)
 	if err != nil {
 		return nil, false, err
@@ -1181,6 +1217,7 @@ func (r *runningStep) enableStage() (bool, bool) {
 	r.currentStage = StageIDEnabling
 	enabledInputAvailable := r.enabledInputAvailable
 	r.state = step.RunningStepStateWaitingForInput
+	verifhook.Emit("SSet", "obj", r, "stage", string(r.currentStage), "state", string(r.state))
 	r.lock.Unlock()
 
 	r.stageChangeHandler.OnStageChange(
@@ -1193,13 +1230,16 @@ func (r *runningStep) enableStage() (bool, bool) {
 		&r.wg,
 	)
 
+	verifhook.Gate("plugin.enable.beforeRecv", "obj", r)
 	var enabled bool
 	select {
 	case enabled = <-r.enabledInput:
+		verifhook.Emit("SSlot", "obj", r, "slot", "enabling", "op", "take", "val", enabled)
 	case <-r.ctx.Done():
 		return false, true
 	}
 
+	verifhook.Gate("plugin.enable.afterRecv", "obj", r)
 	if enabled {
 		// It's enabled, so the disabled stage will not occur.
 		r.stageChangeHandler.OnStepStageFailure(r, string(StageIDDisabled), &r.wg, fmt.Errorf("step enabled; cannot be disabled anymore"))
@@ -1225,11 +1265,13 @@ func (r *runningStep) startStage(container deployer.Plugin) (bool, int64, error)
 	select {
 	case runInput = <-r.runInput:
 		// Good. It received it immediately.
+		verifhook.Emit("SSlot", "obj", r, "slot", "starting", "op", "take")
 		newState = step.RunningStepStateRunning
 		inputReceivedEarly = true
 	default: // The default makes it not wait.
 		newState = step.RunningStepStateWaitingForInput
 		inputReceivedEarly = false
+		verifhook.Emit("SSlot", "obj", r, "slot", "starting", "op", "miss")
 	}
 
 	enabledOutput := any(map[any]any{"enabled": true})
@@ -1253,10 +1295,13 @@ func (r *runningStep) startStage(container deployer.Plugin) (bool, int64, error)
 		r.lock.Unlock()
 
 		// Do a blocking wait for input now.
+		verifhook.Gate("plugin.start.beforeRecv", "obj", r)
 		select {
 		case runInput = <-r.runInput:
 			r.lock.Lock()
 			r.state = step.RunningStepStateRunning
+			verifhook.Emit("SSlot", "obj", r, "slot", "starting", "op", "take")
+			verifhook.Emit("SSet", "obj", r, "stage", string(r.currentStage), "state", string(r.state))
 			r.lock.Unlock()
 		case <-r.ctx.Done():
 			r.logger.Debugf("step closed while waiting for run configuration")
@@ -1264,7 +1309,9 @@ func (r *runningStep) startStage(container deployer.Plugin) (bool, int64, error)
 		}
 	}
 
+	verifhook.Gate("plugin.start.beforeReadSchema", "obj", r)
 	inputSchema, err := r.atpClient.ReadSchema()
+	verifhook.Emit("SReadSchema", "obj", r, "err", err)
 	if err != nil {
 		return false, 0, err
 	}
@@ -1278,24 +1325,30 @@ func (r *runningStep) startStage(container deployer.Plugin) (bool, int64, error)
 		return false, 0, fmt.Errorf("schema mismatch between local and remote deployed plugin in step %s/%s, unserializing input failed (%w)", r.runID, r.pluginStepID, err)
 	}
 
+	verifhook.Emit("SExec", "obj", r, "op", "spawn")
 	r.wg.Add(1)
 
 	// Runs the ATP client in a goroutine in order to wait for it.
 	// On context done, the deployer has limited time before it will error out.
 	go func() {
 		defer r.wg.Done()
+		defer verifhook.Emit("SExec", "obj", r, "op", "done")
 		result := r.atpClient.Execute(
 			schema.Input{RunID: r.runID, ID: r.pluginStepID, InputData: runInput.stepInputData},
 			r.signalToStep,
 			r.signalFromStep,
 		)
+		verifhook.Emit("SExec", "obj", r, "op", "result", "outid", result.OutputID, "err", result.Error)
+		verifhook.Gate("plugin.exec.afterResult", "obj", r)
 		r.lock.Lock()
 		// The sender should be the one to close the signal send channel
 		channel := r.signalToStep
 		r.signalToStep = nil
 		close(channel)
+		verifhook.Emit("SExec", "obj", r, "op", "sigclosed")
 		r.lock.Unlock()
 		r.executionChannel <- result
+		verifhook.Emit("SExec", "obj", r, "op", "published")
 		if err = r.atpClient.Close(); err != nil {
 			r.logger.Warningf("Error while closing ATP client: %s", err)
 		}
@@ -1308,11 +1361,13 @@ func (r *runningStep) runStage(forceCloseTimeoutMS int64) error {
 	startedOutput := any(map[any]any{})
 	r.transitionStageWithOutput(StageIDRunning, step.RunningStepStateRunning, schema.PointerTo("started"), &startedOutput)
 
+	verifhook.Gate("plugin.run.beforeSelect", "obj", r)
 	var result atp.ExecutionResult
 	select {
 	case result = <-r.executionChannel:
 	case <-r.ctx.Done():
 		// In this case, it is being instructed to stop. A cancellation signal should be sent if supported.
+		verifhook.Emit("SRunCtx", "obj", r, "handler", r.hasCancellationHandler())
 		if r.hasCancellationHandler() {
 			r.logger.Debugf("Got step context done before step run complete. Sending cancellation signal. Waiting up to %d milliseconds for result.", forceCloseTimeoutMS)
 			r.lock.Lock()
@@ -1328,6 +1383,7 @@ func (r *runningStep) runStage(forceCloseTimeoutMS int64) error {
 		case result = <-r.executionChannel:
 			// Successfully stopped before end of timeout.
 		case <-time.After(time.Duration(forceCloseTimeoutMS) * time.Millisecond):
+			verifhook.Emit("STimer", "obj", r, "ms", forceCloseTimeoutMS)
 			r.logger.Warningf("Cancelled step %s/%s did not complete within the %d millisecond time limit. Force closing container.",
 				r.runID, r.pluginStepID, forceCloseTimeoutMS)
 			if err := r.forceCloseInternal(); err != nil {
@@ -1338,6 +1394,7 @@ func (r *runningStep) runStage(forceCloseTimeoutMS int64) error {
 		}
 	}
 
+	verifhook.Emit("SRes", "obj", r, "outid", result.OutputID, "err", result.Error)
 	if result.Error != nil {
 		return result.Error
 	}
@@ -1472,12 +1529,14 @@ func (r *runningStep) transitionRunningStage(newStage StageID) {
 }
 
 func (r *runningStep) transitionFromFailedStage(newStage StageID, state step.RunningStepState, err error) {
+	verifhook.Gate("plugin.transition.before", "obj", r, "new", string(newStage))
 	r.lock.Lock()
 	previousStage := string(r.currentStage)
 	r.currentStage = newStage
 	// Don't forget to update this, or else it will behave very oddly.
 	// First running, then finished. You can't skip states.
 	r.state = state
+	verifhook.Emit("SSet", "obj", r, "stage", string(r.currentStage), "state", string(r.state))
 	r.lock.Unlock()
 	r.stageChangeHandler.OnStepStageFailure(
 		r,
@@ -1494,6 +1553,7 @@ func (r *runningStep) transitionStageWithOutput(
 	outputID *string,
 	previousStageOutput *any,
 ) {
+	verifhook.Gate("plugin.transition.before", "obj", r)
 	// A current lack of observability into the atp client prevents
 	// non-fragile testing of this function.
 	r.lock.Lock()
@@ -1502,6 +1562,7 @@ func (r *runningStep) transitionStageWithOutput(
 	// Don't forget to update this, or else it will behave very oddly.
 	// First running, then finished. You can't skip states.
 	r.state = state
+	verifhook.Emit("SSet", "obj", r, "stage", string(r.currentStage), "state", string(r.state))
 	r.lock.Unlock()
 	r.stageChangeHandler.OnStageChange(
 		r,
@@ -1517,10 +1578,12 @@ func (r *runningStep) transitionStageWithOutput(
 //nolint:unparam // Currently only gets state finished, but that's okay.
 //nolint:nolintlint // Differing versions of the linter do or do not care.
 func (r *runningStep) completeStep(currentStage StageID, state step.RunningStepState, outputID *string, previousStageOutput *any) {
+	verifhook.Gate("plugin.transition.before", "obj", r)
 	r.lock.Lock()
 	previousStage := string(r.currentStage)
 	r.currentStage = currentStage
 	r.state = state
+	verifhook.Emit("SSet", "obj", r, "stage", string(r.currentStage), "state", string(r.state))
 	r.lock.Unlock()
 
 	r.stageChangeHandler.OnStepComplete(
